@@ -51,6 +51,8 @@ namespace Dos.Handlers
 @[simp] theorem all_readSize : Cfg.all.readSize = true := rfl
 @[simp] theorem all_mdNil : Cfg.all.mdNil = true := rfl
 @[simp] theorem all_dispReplyNil : Cfg.all.dispReplyNil = true := rfl
+@[simp] theorem all_callRemoveNil : Cfg.all.callRemoveNil = true := rfl
+@[simp] theorem all_callIdMatch : Cfg.all.callIdMatch = true := rfl
 @[simp] theorem all_listenName : Cfg.all.listenName = true := rfl
 @[simp] theorem all_listenCast : Cfg.all.listenCast = true := rfl
 @[simp] theorem all_lookupName : Cfg.all.lookupName = true := rfl
@@ -203,6 +205,87 @@ theorem disp_serves (evs : List DispEv) :
       = [.ok s!"sent {(dispRun Cfg.all {} evs).1.next}", .ok "matched"] := by
     simp [dispRun, dispStep, ha, dispLookup]
   rw [this]; simp
+
+/-! callHandler: the outbound connection table -/
+
+/-- with the id check every entry was announced under the id it is stored under, and is alive -/
+def ConnInv (s : ConnSt) : Prop := s.alive = true ∧ ∀ e ∈ s.tab, e.ann = e.key ∧ e.dead = false
+
+theorem connFind_some (k : Nat) (t : List ConnEntry) (e : ConnEntry) (h : connFind k t = some e) : e ∈ t ∧ e.key = k := by
+  unfold connFind at h
+  exact ⟨List.mem_of_find?_eq_some h, by simpa using List.find?_some h⟩
+
+theorem connDial_inv (s : ConnSt) (x a : Nat) (hs : Bool) (inv : ConnInv s) :
+    ConnInv (connDial Cfg.all s x a hs).1 ∧ (connDial Cfg.all s x a hs).2.isPanic = false ∧
+    (a = x → hs = true → ∃ i, (connDial Cfg.all s x a hs).2 = .ok i) := by
+  unfold connDial
+  cases hf : connFind x s.tab with
+  | some e =>
+    have he := connFind_some x s.tab e hf
+    have hd := (inv.2 e he.1).2
+    simp [hd]; exact inv
+  | none =>
+    cases hs with
+    | false => simp; exact inv
+    | true =>
+      by_cases hax : a = x
+      · subst hax
+        simp only [Bool.not_true, Bool.false_eq_true, if_false, all_callIdMatch, bne_self_eq_false, Bool.and_false]
+        refine ⟨⟨inv.1, ?_⟩, rfl, fun _ _ => ⟨_, rfl⟩⟩
+        intro e he
+        rcases List.mem_cons.mp he with he | he
+        · subst he; exact ⟨rfl, rfl⟩
+        · exact inv.2 e he
+      · have : (a != x) = true := by simpa using hax
+        simp [this, hax]; exact inv
+
+theorem connStep_inv (s : ConnSt) (e : ConnEv) (inv : ConnInv s) :
+    ConnInv (connStep Cfg.all s e).1 ∧ (connStep Cfg.all s e).2.isPanic = false := by
+  cases e with
+  | dial x a hs =>
+    simp only [connStep, inv.1, Bool.not_true, Bool.false_eq_true, if_false]
+    exact ⟨(connDial_inv s x a hs inv).1, (connDial_inv s x a hs inv).2.1⟩
+  | req x =>
+    simp only [connStep, inv.1, Bool.not_true, Bool.false_eq_true, if_false]
+    exact ⟨(connDial_inv s x x true inv).1, (connDial_inv s x x true inv).2.1⟩
+  | hangup x =>
+    simp only [connStep, inv.1, Bool.not_true, Bool.false_eq_true, if_false]
+    cases hf : connFind x s.tab with
+    | none => exact ⟨inv, rfl⟩
+    | some e =>
+      have he := connFind_some x s.tab e hf
+      have hi := inv.2 e he.1
+      have hann : e.ann = x := by rw [hi.1, he.2]
+      simp only [hi.2, Bool.false_eq_true, if_false, hann, hf]
+      refine ⟨⟨rfl, ?_⟩, rfl⟩
+      intro f hfm
+      obtain ⟨g, hg, rfl⟩ := List.mem_map.mp hfm
+      have hgm := List.mem_filter.mp hg
+      have hne : (g.key == x) = false := by simpa using hgm.2
+      simp only [hne, Bool.false_eq_true, if_false]
+      exact inv.2 g hgm.1
+
+theorem connRun_inv (evs : List ConnEv) : ∀ s, ConnInv s →
+    ConnInv (connRun Cfg.all s evs).1 ∧ ∀ o ∈ (connRun Cfg.all s evs).2, o.isPanic = false := by
+  induction evs with
+  | nil => intro s inv; exact ⟨inv, by simp [connRun]⟩
+  | cons e r ih =>
+    intro s inv
+    simp only [connRun]
+    have st := connStep_inv s e inv
+    have := ih _ st.1
+    refine ⟨this.1, fun o h => ?_⟩
+    rcases List.mem_cons.mp h with h | h
+    · subst h; exact st.2
+    · exact this.2 o h
+
+/-- keeps serving: after any history of dials, announced ids and hang-ups a request to ANY member is
+served (over its live entry or a fresh dial), never handed to a dead entry -/
+theorem conn_serves (evs : List ConnEv) (x : Nat) :
+    ∃ i, (connStep Cfg.all (connRun Cfg.all {} evs).1 (.req x)).2 = .ok i := by
+  have inv := (connRun_inv evs {} ⟨rfl, by simp⟩).1
+  simp only [connStep, inv.1, Bool.not_true, Bool.false_eq_true, if_false]
+  exact (connDial_inv _ x x true inv).2.2 rfl rfl
 
 theorem listenMembers_total (ls : List Nat) : ∀ k o, listenMembers Cfg.all ls k = .error o → o.isPanic = false := by
   induction ls with
